@@ -270,6 +270,18 @@ def _sample(case, ctx, g):
     ref = mean + (L @ e.unsqueeze(-1)).squeeze(-1)
     ctx.close("rsample_linear", got, ref, "direct", cls=case["rep"])
     ctx.expect("rsample_shape", tuple(d.rsample(torch.Size([3, 2])).shape) == (3, 2, *db, N), "rsample(sample_shape) shape")
+    # successive draws are NEW draws: the base samples of consecutive calls are different numbers (and uncorrelated), so that
+    # moments estimated over several calls can converge at all
+    b1, b2 = d.get_base_samples(torch.Size([400])), d.get_base_samples(torch.Size([400]))
+    ctx.expect("successive_draws_are_independent", not bool(torch.equal(b1, b2)), "two consecutive get_base_samples calls returned identical numbers")
+    r1, r2 = d.rsample(torch.Size([2])), d.rsample(torch.Size([2]))
+    ctx.expect("successive_draws_are_independent", not bool(torch.equal(r1, r2)), "two consecutive rsample calls returned identical draws")
+    corr = float((b1 * b2).mean() / (b1.std() * b2.std()).clamp_min(1e-12))
+    ctx.expect("successive_draws_are_independent", abs(corr) < 0.25, f"base samples of consecutive calls are correlated ({corr:.2f})")
+    u1 = torch.rand(3)
+    d.get_base_samples(torch.Size([2]))
+    u2 = torch.rand(3)
+    ctx.expect("successive_draws_are_independent", not bool(torch.equal(u1, u2)), "drawing base samples reset the global generator (the next torch.rand repeated the previous one)")
     ctx.expect("base_sample_shape", tuple(d.get_base_samples(torch.Size([2])).shape)[:1] == (2,), "get_base_samples shape")
     ctx.cell(_cellkey(case))
 
@@ -377,6 +389,11 @@ def _arith(case, ctx, g):
     o2, C2 = make_cov("dense", g, db, N)
     m2 = util.randn(g, *db, N)
     chk("add_mvn", lambda: d + MVN(m2, o2), mean + m2, C + C2)
+    # the other operand in the SAME representation as the first (root + root, diagonal + diagonal, ...)
+    if rep not in ("bcast",):
+        o3, C3 = make_cov(rep, g, db, N)
+        m3 = util.randn(g, *db, N)
+        chk("add_mvn", lambda: d + MVN(m3, o3), mean + m3, C + C3.expand(*db, N, N))
     # the + of two distribution objects is the sum of INDEPENDENT vectors, also when both operands are one object
     chk("add_mvn", lambda: d + d, 2 * mean, 2 * C)
     chk("add_mvn", lambda: sum([d, d, d]), 3 * mean, 3 * C)
